@@ -65,6 +65,21 @@ CHECKS.update({
    text="Convexity, blindness to masked positions, permutation consistency, broadcasting vs explicit expansion, negative dims, multi-head composition and bias placement for dot / generalised / concat / multi-headed attention, exhaustive over shapes, dims, masks, permutations and broadcast patterns within the bound with seeded contents.",
    note=_N),
 })
-for _k in ("C12", "C17"):
-    CHECKS.pop(_k, None)
+NOT_APPLICABLE = {("C%02d" % i): _PENDING for i in range(1, 21) if ("C%02d" % i) not in CHECKS}
+
+CHECKS.update({
+ "C06": dict(category="other", engine="rtc", technique=_T_B,
+   text="Lookup language model against the Katz back-off recursion written from the property text, over exhaustively enumerated sparse tables (orders 1-3 on 1-3 symbols, absent/finite/-inf entries, sos in/out of vocabulary) plus sampled larger ones; all-at-once, chunked, per-index, per-element index, save/load into a fresh instance; offset-type boundaries (levels of 2**8 / 2**15 nodes); ARPA reader exactness in base 10 and e.",
+   note=_N + " The deductive verifier does not reach the trie construction/navigation (dense data-dependent tensor code)."),
+ "C14": dict(category="other", technique="contract-based deductive verification: loop invariant on the real BucketBatchSampler.__iter__ for a sampler of symbolic length (pending / full / consumed arrays over buckets) and the len-formula lemma; z3 + bounded run-time contracts for parameters, collation and loaders",
+   text="Proved for every sampler length, bucket assignment and size map: per bucket consumed = full*size + pending with 0 <= pending < size; every yielded batch has exactly the bucket's size; with drop_incomplete only the incomplete batch is lost, otherwise it is flushed once; number of batches = the length formula. Bucket parameters, collation, context windows, loaders (len, determinism, purity, coverage, distributed) bounded.",
+   note=_N + " `batches` abstracted to arrays over buckets; the flush loop abstracted to 'each non-empty pending list once'."),
+})
+CHECKS["C07"].update(technique=_T_S, engine="pyvc+rtc", text="Real ctc_greedy_search source symbolically executed per shape (best labels collapsed, lengths, score) for all contents/lengths/blank indices; sequence log-probs (tensor and packed), random walks via a forced-choice sampler visiting every walk of the bounded tree, distribution wrapper support/sample/log_prob by exhaustive run-time contracts against a pure-Python oracle.")
+CHECKS["C09"].update(technique=_T_S, engine="pyvc+rtc", text="Real pad_masked_sequence source symbolically executed per shape (selected elements in order, then padding; count) for all contents and masks; pad_variable / chunk_by_slices / RandomShift against a per-sequence pad-and-slice oracle (cross-checked with torch.nn.functional.pad), exhaustive over lens/pads/slices within the bound.")
+CHECKS["C04"].update(technique=_T_S, engine="pyvc+rtc", text="Real beam_search_advance source symbolically executed per shape (score = source + extension, path = prefix + token, distinct pairs, best-first, optimal, fillers) for all contents with an assumed top-k contract; BeamSearch.forward with state-threading table language models by exhaustive run-time contracts.")
+CHECKS["C18"].update(technique=_T_S, engine="pyvc+rtc", text="Real time_distributed_return source symbolically executed per horizon: Bellman recurrence as a polynomial identity for all rewards and discount factors; mean-variance statistics over every ordered set partition (exact rational oracle), deltas, long-sequence returns and the CLI by exhaustive run-time contracts.")
+CHECKS["C20"].update(technique=_T_S, engine="pyvc+rtc", text="Real dot-product / generalised soft-attention forward symbolically executed per shape with an assumed softmax contract: convexity over kept values and blindness to masked keys/values for all contents; permutation, broadcasting, negative dims, multi-head composition and bias placement by exhaustive run-time contracts.")
+CHECKS["C12"]["text"] = "Proved for all inputs: reference-boundary check/repair (raises iff not well-formed / not documented-repairable, repaired row passes a strict pass, only documented field changes), alignment-length crop rule, utterance discovery by prefix/suffix. Validation iff well-formed, validate/fix/validate histories, info recount, sos/eos inverse and utterance discovery on generated directories bounded."
+CHECKS["C17"]["text"] = "Proved for all file names/prefixes/suffixes: each of the six directory filters selects exactly startswith(prefix) and endswith(suffix) and derives the documented id. Conversions (trn/ctm/TextGrid/alignments round trips), error-rate totals for every batch size, subsetting, statistics and worker-count invariance on the real CLI entry points bounded."
 NOT_APPLICABLE = {("C%02d" % i): _PENDING for i in range(1, 21) if ("C%02d" % i) not in CHECKS}
